@@ -911,8 +911,9 @@ class NestedContainer(Task, Iterable):
             # only for a set is the order of the elements not part of the value
             tokens.sort()
         elif self.klass is dict:
-            # a dict is identified by its key/value pairs, in any order
-            tokens = sorted(zip(tokens[::2], tokens[1::2]))
+            # a dict is identified by its key/value pairs, in any order; a key
+            # given twice keeps its last value, as in the dict that is built
+            tokens = sorted(dict(zip(tokens[::2], tokens[1::2])).items())
         return (type(self).__name__, self.klass, tokens)
 
     @staticmethod
